@@ -239,14 +239,17 @@ def killBlobber (s : State) (i newStake : Nat) (del : Bool) : R :=
                       sps := s.sps.set i (some { sp with dead := true, stake := newStake }) }
   | _, _ => .error (.inadm "no-blobber")
 
-/-- `provider.ShutDown` called by the contract owner: the blobber is marked; the killed copy of its stake pool is
-saved under the CALLER's id (`sp.Save(p.Type(), clientId, …)`), so the blobber's own stake pool node is unchanged. -/
-def shutBlobber (s : State) (i : Nat) (del : Bool) : R :=
+/-- `provider.ShutDown` (storagesc `shutdownBlobber`), as `killBlobber` with half the slash: the blobber is marked
+shut down, its stake pool is killed, slashed to `newStake` (observed) and saved under the blobber's id; a call on an
+already dead blobber runs the same refresh: `TotalOffers = 0`. -/
+def shutBlobber (s : State) (i newStake : Nat) (del : Bool) : R :=
   match s.blobbers i, s.sps i with
   | some b, some sp =>
     if b.dead then .ok { s with sps := s.sps.set i (some { sp with offers := 0 }) }
+    else if sp.stake < newStake then .error (.inadm "slash-increases-stake")
     else if del then .ok { s with blobbers := s.blobbers.set i none, sps := s.sps.set i none }
-    else .ok { s with blobbers := s.blobbers.set i (some { b with dead := true }) }
+    else .ok { s with blobbers := s.blobbers.set i (some { b with dead := true }),
+                      sps := s.sps.set i (some { sp with dead := true, stake := newStake }) }
   | _, _ => .error (.inadm "no-blobber")
 
 def killValidator (s : State) (i newStake : Nat) (del : Bool) : R :=
@@ -568,6 +571,11 @@ def update (s : State) (k : Nat) (caller : Caller) (value size : Nat) (ext : Boo
 
 def hasBlobber (bas : List BA) (i : Nat) : Bool := (findBA bas i).isSome
 
+/-- `IsValidFinalizer`: the caller is one of the allocation's blobbers -/
+def callerIsBlobber (bas : List BA) : Caller → Bool
+  | .blobber i => hasBlobber bas i
+  | _ => false
+
 /-- `reduceOffer` for every blobber allocation before anything else: `MinusCoin` fails when the stake pool's
 `TotalOffers` is smaller than this allocation's offer. -/
 def offersReleasable (s : State) : List BA → Bool
@@ -606,9 +614,7 @@ def close (s : State) (fin : Bool) (k : Nat) (caller : Caller) (X : Nat) (per : 
   | none => .error (.fail "absent")
   | some a =>
     let isOwner := decide (caller = .client a.owner)
-    let isBlobber := match caller with
-      | .blobber i => hasBlobber a.bas i
-      | _ => false
+    let isBlobber := callerIsBlobber a.bas caller
     if fin && !(isOwner || isBlobber) then .error (.fail "unauthorised")
     else if !fin && !isOwner then .error (.fail "unauthorised")
     else if fin && decide (s.now < a.exp) then .error (.fail "not-expired")
@@ -636,7 +642,7 @@ inductive Op where
   | collect (v : Bool) (i j rew : Nat)
   | updBlobber (i : Nat) (cap price : Option Nat)
   | killBlobber (i newStake : Nat) (del : Bool)
-  | shutBlobber (i : Nat) (del : Bool)
+  | shutBlobber (i newStake : Nat) (del : Bool)
   | killValidator (i newStake : Nat) (del : Bool)
   | newAlloc (j data size value : Nat) (chosen : List Nat)
   | update (k : Nat) (caller : Caller) (value size : Nat) (ext : Bool) (add rem : Option Nat) (rw cc dp : Nat) (ds : List Int)
@@ -658,7 +664,7 @@ def step (s : State) : Op → R
   | .collect v i j rew => collect s v i j rew
   | .updBlobber i cap price => updBlobber s i cap price
   | .killBlobber i ns del => killBlobber s i ns del
-  | .shutBlobber i del => shutBlobber s i del
+  | .shutBlobber i ns del => shutBlobber s i ns del
   | .killValidator i ns del => killValidator s i ns del
   | .newAlloc j data size value chosen => newAlloc s j data size value chosen
   | .update k c value size ext add rem rw cc dp ds => update s k c value size ext add rem rw cc dp ds
